@@ -542,7 +542,8 @@ def gen_local(r, n):
     m = r.pick([20, 30, 60, 120])
     # the key range straddles zero in most cases: 0 / 0.0 / False-like keys must be usable as separators
     # (and as the key a branch rotation moves up) like any other key
-    off = 10 * r.below(m) if r.chance(65) else 0
+    # (now and then exactly so that 0 sits on the split point of the first root split)
+    off = (10 * r.pick([(cap + 1) // 2, cap // 2, r.below(m), r.below(m)])) if r.chance(70) else 0
     if r.chance(50):
         yield f"P fromsorted {cap} " + ",".join(f"{10 * i - off}:{i}" for i in range(m))
     else:
